@@ -83,15 +83,15 @@ def RErr.name : RErr → String
   | .outOfDomain => "outOfDomain" | .internal => "internal"
 
 def Bad.name : Bad → String
-  | .undef => "undef" | .unequal => "unequal" | .unbound => "unbound"
+  | .undef => "undef" | .unequal => "unequal"
 
 def Res.toWire : Res → String
   | .ok v => s!"ok {ratToWire v}"
   | .error e => e.name
 
-/-- `x=num/den` assignments, space separated -/
+/-- `x=num/den` assignments, space separated; unlisted variables are 0 -/
 def envOfWire (toks : List String) : Env := fun c =>
-  toks.findSome? fun tok =>
+  (toks.findSome? fun tok =>
     match tok.splitOn "=" with
     | [x, v] =>
       if x.toList = [c] then
@@ -99,6 +99,6 @@ def envOfWire (toks : List String) : Env := fun c =>
         | [n, d] => mkRatWire n d
         | _ => none
       else none
-    | _ => none
+    | _ => none).getD 0
 
 end Mathy
